@@ -7,6 +7,7 @@
 (* "start" event (the handshake, closed form) resets the state.            *)
 (*   start  enc, ver, nonceEnd, hsEnd                                      *)
 (*   write  tp, len, h, flush -> err, wire (bytes on the wire), trailer    *)
+(*   rawpad k (raw padding words, plain streams) -> wire                   *)
 (*   seal   cuts (every k / explicit list), pos, mask -> total             *)
 (*   read   -> pkt(tp, len, h) | err(e), served, eof                       *)
 (*   end    revn (bytes B wrote back), pongs                               *)
@@ -36,6 +37,11 @@ TWrite ==
   /\ Ev.trailer = aw'.tail
   /\ (Ev.err = "" /\ Ev.flush) => Ev.wire = aw'.n - HsEnd
 
+TRawPad ==
+  /\ Ev.ev = "rawpad"
+  /\ RawPad(Ev.k)
+  /\ Ev.wire = aw'.n - HsEnd
+
 TSeal ==
   /\ Ev.ev = "seal"
   /\ Seal([every |-> Ev.every, at |-> SetOf(Ev.at)], [pos |-> Ev.pos, mask |-> Ev.mask])
@@ -64,7 +70,7 @@ Init == InitState /\ l = 1
 Next ==
   /\ l <= Len(Trace)
   /\ l' = l + 1
-  /\ (TStart \/ TWrite \/ TSeal \/ TRead \/ TEnd)
+  /\ (TStart \/ TWrite \/ TRawPad \/ TSeal \/ TRead \/ TEnd)
 
 Accepted ==
   \/ TLCGet("stats").diameter = Len(Trace) + 1
